@@ -172,10 +172,8 @@ func runEnum(c *core.Ctx) []core.Obligation {
 		var props []string
 		switch {
 		case strings.HasSuffix(rt, "json.Encoder"):
-			table, props = appendFlags, []string{"C14", "C01"}
-			if strings.Contains(fn.Name(), "RawMessage") {
-				props = []string{"C14", "C01", "C05"}
-			}
+			// a setter that clobbers the other bits also switches TrustRawMessage: C05's subject
+			table, props = appendFlags, []string{"C14", "C01", "C05"}
 		case strings.HasSuffix(rt, "json.Decoder"):
 			table, props = parseFlags, []string{"C14", "C02"}
 		default:
